@@ -48,6 +48,7 @@ static void hook_common(tpt_p tpt, int start) {
 	}
 	if (idx < 0 || idx > pw->n) { pw->hook_bad++; return; }
 	if (start) pw->start_cnt[idx]++; else pw->stop_cnt[idx]++;
+	if (start && idx < pw->n && W.start_hook_fn) W.start_hook_fn(tpt, idx);
 	if (start && W.hook_shutdown_idx1 == idx + 1) {
 		/* the application decides in a start hook that it does not want to run after all (for the virtual thread
 		 * that is inside tp_create, for a worker on the worker itself) */
@@ -191,6 +192,12 @@ void world_msg_cb(tpt_p tpt, void *udata) {
 		}
 	} else {
 		/* queued delivery: must run on the destination thread */
+		if (m->dst >= 0 && tpt == dst && cur != tpt) {
+			/* the worker's loop handed us its own thread object, yet the library's "current thread" is something else:
+			 * every self/deadlock test of this thread is wrong from here on (checked in every pool check) */
+			sim_violation("thread-identity-lost", "callback served by worker %d of pool %d, but tpt_get_current() on that thread answers %s", m->dst, m->pool, cur ? "another thread object" : "NULL (not a pool thread)");
+			return;
+		}
 		if (m->dst >= 0) {
 			if (cur != dst) {
 				int ci = -2; pool_w *cp = cur ? world_pool_of_tpt(cur, &ci) : NULL;
